@@ -28,6 +28,7 @@ def lemma_task(qual, variants, mk_args, removed_arg=None):
             outs = verify.run_summary(ex, layer1.SUMMARIES[qual], st0, me, args, kwargs)
             n_feasible = 0
             for i, o in enumerate(outs):
+                i = o.st.pathid()
                 g1, bb1 = o.st.g(me), o.st.bb(me)
                 removed = None
                 if removed_arg is not None:
